@@ -168,6 +168,14 @@ func executeResolved(o *Options, hist []int) (string, []mc.Fail) {
 				bad("C16/resolved-snapshot-changed-by-later-operations", "the snapshot delivered at step %d (%s %s %s@%s) was modified by later operations", n.step, n.op, n.table, n.key, n.ni)
 			}
 		}
+		if in.hookFold != nil {
+			// the post-change hook under the controlled runtime: with every notification delivered (also those a
+			// change might hand to goroutines of its own), folding them must give the RIB's contents
+			rt.Quiesce()
+			if d := ribx.Diff(in.fold, in.hookFold); d != "" {
+				bad("C16/hook-fold-differs-at-quiescence/"+ribx.DiffKinds(in.fold, in.hookFold), "with every notification delivered, folding the post-change notifications differs from the RIB: %s", d)
+			}
+		}
 		canon = in.Canon()
 	})
 	switch {
